@@ -25,7 +25,7 @@ UNI = {"aa": "äa", "kw": "кw", "end": "énd", "bb": "bB", "begin": "BEGIN", "c
 RULE = ("generated grammars (keywords partly replaced by non-ASCII / mixed-case spellings: äa, кw, énd, bB) with "
         "ignore_case=True, autokwd on/off x 5 derived inputs x 3 case variations of the literal-matched characters; "
         "non-trivial: an accepted input in which >=2 literal tokens change, one of them a separator or a regex literal; "
-        "distinct by canonical JSON")
+        "a case-sensitive sibling metamodel of the same grammar is built first; literals include ones that need or are spelled with escapes; distinct by canonical JSON")
 ASSUMPTIONS = c01.ASSUMPTIONS[:3] + [
     "built-in base types (ID, BOOL, ...) are not affected by ignore_case; only characters matched by grammar literals are varied",
     "a string match yields the grammar's spelling; under autokwd a keyword-like literal yields the input's spelling (docs note N2)",
